@@ -241,7 +241,33 @@ def sc_single_events(sc, base, r, delete):
     return fails
 
 
-SCENARIOS = [("single-events", sc_single_events), ("idle", sc_idle), ("during-initial-sync", sc_during_initial), ("during-sync", sc_during_sync), ("burst", sc_burst), ("sigint-during-sync", sc_sigint_during_sync)]
+def sc_mass_delete(sc, base, r, delete):
+    """a burst that removes many files, with --delete and WITHOUT --force-delete (the safety checks of the engine stay on): below the
+    percentage threshold the destination has to catch up; more than 1000 removals must not make the loop wait for an answer on
+    standard input (`fix: watch mode does not ask for confirmation on standard input`)"""
+    os.makedirs(base + "/src"); os.makedirs(base + "/dst")
+    total, gone = (2100, 1001 + r.randrange(0, 40)) if delete else (600, 250)
+    for i in range(total):
+        with open(base + "/src/f%04d" % i, "wb") as fh:
+            fh.write(b"x")
+    w = Watch(sc, base, ["--delete"])
+    fails = []
+    if not w.wait_for("Watching", timeout=60.0):
+        fails.append("watcher never became ready")
+    time.sleep(0.6)
+    for i in range(gone):
+        os.remove(base + "/src/f%04d" % i)
+    if wait_converged(w, True, deadline=DEADLINE + gone * 0.04) is None:
+        fails.append("%d of %d files removed in one burst (--delete, %d%% of the destination): not propagated within the deadline; destination has %d entries, source %d"
+                     % (gone, total, 100 * gone // total, len(os.listdir(base + "/dst")), len(os.listdir(base + "/src"))))
+    rc, secs = w.stop()
+    if rc != 0:
+        fails.append("exit status after SIGINT: %s" % rc)
+    return fails
+
+
+SCENARIOS = [("single-events", sc_single_events), ("idle", sc_idle), ("during-initial-sync", sc_during_initial), ("during-sync", sc_during_sync), ("burst", sc_burst),
+             ("sigint-during-sync", sc_sigint_during_sync), ("mass-delete", sc_mass_delete)]
 
 
 def run_scenario(sc, seed, idx):
@@ -271,7 +297,7 @@ def run(tier, seed):
     if not oki:
         res.violation("build", "build failed:\n" + outi[-3000:], no_input=True)
         return res.finish()
-    n = 12 if tier == "quick" else 72
+    n = 14 if tier == "quick" else 84
     viol, runs = [], []
     from concurrent.futures import ThreadPoolExecutor
     with vlib.Scratch() as sc:
